@@ -56,6 +56,26 @@ def run(tier, seed):
         except Exception:
             continue
         cases.append((g, s, ctx))
+    # namesakes (a null-namespace type and a namespaced one with the same simple name, referred to by simple name from
+    # inside the namespace) and top-level unions whose later branches refer to types defined in earlier branches
+    from props.c11 import namesake_family
+    for kind, sch in namesake_family(seed + 13, scale(tier, 30)):
+        if kind.startswith("valid"):
+            cases.append((gen.Gen(seed + 1), sch, gen.Ctx()))
+    import random as _random
+    for i in range(scale(tier, 30)):
+        r = _random.Random(seed * 1301 + i)
+        ns = r.choice(["", "cards", "a.b"])
+        q = (ns + ".") if ns else ""
+        suit = {"type": "enum", "name": "Suit", "symbols": ["S", "H"]}
+        if ns:
+            suit["namespace"] = ns
+        card = {"type": "record", "name": q + "Card", "fields": [{"name": "suit", "type": r.choice([q + "Suit", "Suit" if ns else q + "Suit"])},
+                                                                 {"name": "n", "type": "int"}]}
+        hand = {"type": "record", "name": q + "Hand", "fields": [{"name": "cards", "type": {"type": "array", "items": q + "Card"}},
+                                                                 {"name": "trump", "type": ["null", q + "Suit"]}]}
+        u = [suit, card] + ([hand] if r.random() < 0.6 else []) + r.sample(["null", "string", "long"], r.randint(0, 2))
+        cases.append((gen.Gen(seed + 2), u, gen.Ctx()))
     reqs = [{"op": "spec.canon", "schema": to_wire(s)} for (g, s, ctx) in cases]
     reqs2 = [{"op": "parse", "schema": to_wire(s)} for (g, s, ctx) in cases]
     spec = run_batch(reqs)
